@@ -38,7 +38,7 @@ REPO = os.environ.get("VERIF_REPO", "/repo")
 VERIF = os.path.dirname(os.path.dirname(os.path.abspath(__file__)))
 CACHE = os.path.join(VERIF, ".cache")
 STUBS = os.path.join(VERIF, "stubs")
-EXTRACTOR_VERSION = "9"
+EXTRACTOR_VERSION = "10"
 
 
 class AnalysisError(Exception):
@@ -95,7 +95,7 @@ _COPY = ("name", "opcode", "value", "castKind", "isArrow", "storageClass", "tls"
          "isPostfix", "tagUsed", "isImplicit", "inline", "variadic", "constexpr",
          "completeDefinition", "hasElse", "hasInit", "hasVar", "isBitfield", "mutable",
          "explicitlyDefaulted", "explicitlyDeleted", "virtual",
-         "pure", "access", "isCaseRange", "hasBraces", "adl", "isTypeDependent")
+         "pure", "access", "isCaseRange", "hasBraces", "adl", "isTypeDependent", "member")
 _SHORT = {"name": "n", "opcode": "op", "value": "v", "castKind": "ck", "isArrow": "arrow"}
 
 
